@@ -26,7 +26,7 @@ FAMILIES = {"quick": ["ranges", "uris", "xfers", "schemas", "recinst", "dynscope
             "thorough": ["ranges", "uris", "xfers", "schemas", "recinst", "dynscope", "annots", "recgraphs2", "fnpos", "posshape"]}
 
 
-def compare_members(chk, fam, members, cases, obs):
+def compare_members(chk, fam, members, cases, obs, alt=None):
     """members: CASE records of DenMC (defined ones); cases/obs: the harness cases and observations of the same programs"""
     total = compared = same = 0
     for c, hc, o in zip(members, cases, obs):
@@ -45,6 +45,13 @@ def compare_members(chk, fam, members, cases, obs):
             continue
         kinds = sorted(set(k for k, _ in diffs))
         key = "C02|" + "+".join(kinds[:3])
+        a = (alt or {}).get(json.dumps(c["prog"], sort_keys=True))
+        if a is not None and all(k.startswith("annotation-differs") for k in kinds) and not absdoc.compare_docs(absdoc.expected_doc(a), absdoc.abstract_doc(o["doc"], K)):
+            # the document is exactly what Den.tla denotes when annotations reaching a parameter's use win over those written
+            # on the argument (ParamPrecedence = "use", the pinned behaviour of eval_binding): the known precedence inconsistency
+            chk.violation("C02|annotation-precedence-through-parameter", "%s: %s; program %r" % (fam, diffs[0][1][:300], text[:200]),
+                          {"files": hc["files"], "family": fam, "differences": diffs[:6]})
+            continue
         if "two-resources-one-path" in kinds:
             key = "C02|two-resources-one-path"
         elif c.get("label") and len(c["label"]) == 4:
@@ -83,7 +90,12 @@ def run(tier):
             if got != [strip(st) for st in c["prog"]["mods"][c["prog"]["main"]]]:
                 raise common.ToolError("renderer cross-check failed (tree2ast(render(p)) != p) on %r" % rp["files"][rp["main"]][:200])
         obs = run_oalv_parallel("compile", cases, jobs=8)
-        t, c_, same = compare_members(chk, fam, members, cases, obs)
+        alt = None
+        if fam == "annots":
+            rpin = run_tlc("DenMC", "Den_annots_pinned.cfg", workers=8, timeout=3000, java_opts=["-Xss512m"], xmx="12g")
+            chk.add_tlc(rpin)
+            alt = {json.dumps(c["prog"], sort_keys=True): c for c in rpin.cases if c["defined"]}
+        t, c_, same = compare_members(chk, fam, members, cases, obs, alt)
         total += t
         compared += c_
         chk.notes.setdefault("members", {})[fam] = {"accepted_by_the_model": len(members), "documents_equal": same}
